@@ -12,7 +12,8 @@ Decided (necessary structural conditions, whole engine):
                 pointers (mj_clearEfc / clearIsland, inferred as "who assigns NULL to the arena fields") in the same
                 function, or is a static helper all of whose callers do; otherwise pointers into recycled arena memory would
                 carry data of a previous call
-  (state tables, reset coverage and lazy flags are decided under C26 and C04 and are referenced, not repeated)
+  R-TABLE-STATE / R-STATE-LOOP / R-COVER-RESET  the state API tables, loops and reset coverage (rules shared with C26); lazy
+                flags are decided under C04
 Not decided: bit-identity of floating-point results; reads of uninitialised stack/arena memory along feasible paths.
 """
 from __future__ import annotations
@@ -181,6 +182,13 @@ def run(res, tier):
             res.bad("R-ARENA-STALE", name, f["file"], lines[0],
                     f"{name} rewinds d->parena but neither it nor all of its callers ({sorted(c[1] for c in cs)[:4]}) clear the "
                     f"arena-backed pointers: stale efc/island pointers would alias recycled arena memory")
+    # ---------------------------------------------------------------- state tables and reset coverage (shared with C26)
+    # "made by mj_copyState or mj_setState into a fresh, reset or previously used mjData": the state API must move exactly the
+    # state components and reset must reinitialise everything the simulation writes.
+    from . import c26 as _c26
+    _c26.state_tables(res)
+    _c26.reset_cover(res)
+
     res.explanation = (
         "Whole-engine ownership rules over the call graph of the simulation entry points (function-pointer tables, task "
         "functions and local function pointers resolved): no shared static state or ambient nondeterminism; complete "
